@@ -142,3 +142,11 @@ Proof. exact add_asset_loads_then_inserts. Qed.
 Theorem C02_code_directory_loads_go_through_the_cache :
   dir_load_wf Directory_load = true /\ rec_load_wf RecursiveDirectory_load = true.
 Proof. exact (conj (proj1 (proj2 (proj2 (proj2 (proj2 (proj2 dirs_as_specified)))))) (proj2 (proj2 (proj2 (proj2 (proj2 (proj2 dirs_as_specified))))))). Qed.
+
+(* ... and every cache kind takes that slow path: neither AssetCache nor LocalAssetCache replaces
+   RawCache's add_asset (their impls define assets / get_source / reloader only), so no map borrow
+   or shard lock is held while a loader runs and nested loads of any depth go through *)
+Theorem C02_code_caches_load_through_the_default_add_asset :
+  raw_items_wf Gen.CacheMap.AssetCache_raw_items = true /\
+  raw_items_wf Gen.LocalMap.LocalAssetCache_raw_items = true.
+Proof. exact caches_load_through_the_default_add_asset. Qed.
